@@ -154,6 +154,7 @@ func isInTestOnlyContext(
 		receiverType := ""
 		if len(currentFunc.Recv.List) > 0 {
 			receiverType = annotations.ExtractReceiverType(currentFunc.Recv.List[0].Type)
+			receiverType = annotations.ResolveReceiverType(ctx.pass, currentFunc, receiverType)
 		}
 		methodName := currentFunc.Name.Name
 		return ctx.testOnlyMethods.Match(*ctx.currentPkgPath, methodName, receiverType)
